@@ -346,7 +346,9 @@ def hdd_snapshots(rng, ctx, depth: int = 2, top_mode: str = "default", nstorages
     top_guid = None
     if top_mode == "explicit":
         top_guid = guids[-1]
-    whds.write_hdd_dir(str(d), storages, shots, top_guid=top_guid, files=files)
+    xml_order = list(storages)
+    rng.shuffle(xml_order)  # the order of the Storage elements in the descriptor carries no meaning
+    whds.write_hdd_dir(str(d), xml_order, shots, top_guid=top_guid, files=files)
     hdd = HDD(d)
     upto = depth
     if open_guid == "top":
